@@ -44,6 +44,25 @@
 (*    first read it is run by the plain handlers against N's own engine    *)
 (*    (refused there with STATE_ERROR) instead of being forwarded          *)
 (*                                                                         *)
+(*  - LeaderExpire: the hold of the key EXPIRES on a deciding engine        *)
+(*    (LockDB.doExpried): the engine pushes an UNSOLICITED frame - result   *)
+(*    EXPRIED, carrying the request id of the LATEST request granted into   *)
+(*    that hold (lock.command is replaced by every re-lock / update) - down *)
+(*    the connection that request came in on, i.e. down an upstream link    *)
+(*    when the request was forwarded, and grants the head waiter.  So the   *)
+(*    leader may send a SECOND frame with a request id it has already       *)
+(*    answered.  The rule of the transparency layer: exactly ONE leader     *)
+(*    frame is relayed as the answer of a request; the notice is relayed to *)
+(*    a binary client as a notice with that very request id and is dropped  *)
+(*    for a text client (processTextProcotol resets lockRequestId when it   *)
+(*    hands a frame to lockWaiter, so the notice matches nothing).  The     *)
+(*    text handler is modelled with lockRequestId (twait), the request the  *)
+(*    handler blocks for (tblk) and the buffered channel lockWaiter (lw).   *)
+(*    ResetAfterRelay = FALSE names the mutation "the reset lands on a      *)
+(*    copy" (seed C10d): the notice still matches, is queued in lockWaiter  *)
+(*    and handed to the client as the answer of its NEXT request - TLC      *)
+(*    refutes ReplyOfThatVeryRequest.                                       *)
+(*                                                                         *)
 (* The lock engine is abstracted to ONE exclusive key with a FIFO wait     *)
 (* queue and re-entrant depth <= 2.  Request classes: lock0 (no wait),     *)
 (* lockw (waits), lockr (no wait, Rcount > 0: the holder's re-lock is      *)
@@ -60,15 +79,16 @@ EXTENDS Integers, Sequences, FiniteSets, TLC, Json
 
 CONSTANTS BinConns, TextConns,  \* client connections on node N
           DirConns,             \* client connections on the leader L
-          Lids, Ops, MaxReq, MaxFaults,
-          RollbackLatestOnly, FirstTextLocal, FastPathOr, AllowDemote, RecordHist
+          Lids, Ops, MaxReq, MaxFaults, MaxExpire,
+          RollbackLatestOnly, FirstTextLocal, FastPathOr, ResetAfterRelay, AllowDemote, RecordHist
 
 NConns == BinConns \cup TextConns
 Conns  == NConns \cup DirConns
 
 VARIABLES role,     \* N's own role: "follower" | "leader"
           known,    \* N knows a reachable leader address
-          eng,      \* "L" / "N" -> [holder, wq]   (N's entry is its replica while it follows)
+          eng,      \* "L" / "N" -> [holder, depth, hrid, wq]   (N's entry is its replica while it follows); hrid = request whose
+                    \*              command the hold keeps (the latest one granted into it; 0 = a replicated hold)
           req,      \* sequence of requests [conn, op, lid]; the index is the request id
           inb,      \* conn -> request ids sent by the client, not yet taken by the node
           wrapped,  \* NConns -> the connection runs inside a Transparency*ServerProtocol
@@ -76,48 +96,66 @@ VARIABLES role,     \* N's own role: "follower" | "leader"
           up,       \* NConns -> "none" | "up"   upstream connection to the leader
           gen,      \* NConns -> number of upstream connections opened so far
           upq,      \* NConns -> request ids written to the upstream, not yet read by the leader
-          downq,    \* NConns -> leader replies [rid, res] not yet relayed
+          downq,    \* NConns -> leader frames [rid, res, nt] not yet relayed (nt: an unsolicited notice)
           latest,   \* NConns -> latestRequestId (0 = latestCommandType 0xff)
-          twait,    \* TextConns -> request id the text handler blocks on (0 = none)
-          rep,      \* Conns -> replies the client has received [rid, res, src]
+          twait,    \* TextConns -> lockRequestId: the request id whose leader frame is handed to lockWaiter (0 = zeroed)
+          tblk,     \* TextConns -> request the text handler blocks for on lockWaiter (0 = handler idle)
+          lw,       \* TextConns -> frames buffered in the channel lockWaiter (empty in the code as it is)
+          rep,      \* Conns -> what the client has received [rid, res, src, kind, of, ofn]: kind "reply" = taken as THE answer of
+                    \*          request rid, "notice" = a further frame for rid; of / ofn = the request id / notice bit of the leader
+                    \*          frame that was delivered
           dec,      \* ghost: request id -> what the deciding engine decided ("none", "queued", result)
           via,      \* ghost: request id -> [c, g] upstream instance that carried it (g = 0: decided on the node it was sent to)
           orphan,   \* ghost: requests left without any reply by an upstream break
           fpbad,    \* ghost: the fast path answered TIMEOUT although the (in-sync) leader would have granted
+          expired,  \* ghost: requests whose hold expired on the deciding engine
+          noted,    \* ghost: requests whose expiry notice was put on an intact route to the node / the client
+          nlost,    \* ghost: notices that were in a downstream queue when the upstream connection broke
+          nx,       \* number of expiries so far
           nf, hist
 
-vars == <<role, known, eng, req, inb, wrapped, first, up, gen, upq, downq, latest, twait, rep, dec, via, orphan, fpbad, nf, hist>>
+vars == <<role, known, eng, req, inb, wrapped, first, up, gen, upq, downq, latest, twait, tblk, lw, rep, dec, via, orphan, fpbad,
+          expired, noted, nlost, nx, nf, hist>>
 
 SUCCED == "SUCCED"   TIMEOUT == "TIMEOUT"   LOCKED == "LOCKED_ERROR"   UNLOCKERR == "UNLOCK_ERROR"
-STATEERR == "STATE_ERROR"   ERROR == "ERROR"
+STATEERR == "STATE_ERROR"   ERROR == "ERROR"   EXPRIED == "EXPRIED"
 
 NReq == Len(req)
 Rids == 1..NReq
-Answered(rid) == \E i \in 1..Len(rep[req[rid].conn]) : rep[req[rid].conn][i].rid = rid
+Answered(rid) == \E i \in 1..Len(rep[req[rid].conn]) : rep[req[rid].conn][i].rid = rid /\ rep[req[rid].conn][i].kind = "reply"
 
-H(op, c) == IF RecordHist THEN Append(hist, [op |-> op, c |-> c, rop |-> "", lid |-> 0]) ELSE hist
+H(op, c) == IF RecordHist THEN Append(hist, [op |-> op, c |-> c, rop |-> "", lid |-> 0, n |-> 0]) ELSE hist
+
+\* a frame of a deciding engine: the reply of request rid, or (nt) an unsolicited notice carrying the id of request rid
+Fr(rid, res) == [rid |-> rid, res |-> res, nt |-> FALSE]
+\* what a client records: frame f taken as THE answer of request rid / received as a further frame (notice) of request f.rid
+RpReply(rid, f, src) == [rid |-> rid, res |-> f.res, src |-> src, kind |-> "reply", of |-> f.rid, ofn |-> f.nt]
+RpNotice(f, src)     == [rid |-> f.rid, res |-> f.res, src |-> src, kind |-> "notice", of |-> f.rid, ofn |-> TRUE]
+\* a binary / direct client matches a frame by the request id it carries
+RpOf(f, src) == IF f.nt THEN RpNotice(f, src) ELSE RpReply(f.rid, f, src)
 
 -----------------------------------------------------------------------------
 \* the engine: one exclusive key, FIFO queue.  Decide returns the new engine and the replies it emits.
 Decide(e, rid) ==
     LET r == req[rid]
-        one(res) == [e |-> e, out |-> <<[rid |-> rid, res |-> res]>>, q |-> FALSE]
+        one(res) == [e |-> e, out |-> <<Fr(rid, res)>>, q |-> FALSE]
     IN
     IF r.op = "unlock"
     THEN IF e.holder = r.lid
          THEN IF e.depth > 1
-              THEN [e |-> [e EXCEPT !.depth = @ - 1], out |-> <<[rid |-> rid, res |-> SUCCED]>>, q |-> FALSE]
+              THEN [e |-> [e EXCEPT !.depth = @ - 1], out |-> <<Fr(rid, SUCCED)>>, q |-> FALSE]
               ELSE IF e.wq = <<>>
-              THEN [e |-> [e EXCEPT !.holder = 0, !.depth = 0], out |-> <<[rid |-> rid, res |-> SUCCED]>>, q |-> FALSE]
-              ELSE [e |-> [holder |-> req[Head(e.wq)].lid, depth |-> 1, wq |-> Tail(e.wq)],
-                    out |-> <<[rid |-> rid, res |-> SUCCED], [rid |-> Head(e.wq), res |-> SUCCED]>>, q |-> FALSE]
+              THEN [e |-> [e EXCEPT !.holder = 0, !.depth = 0, !.hrid = 0], out |-> <<Fr(rid, SUCCED)>>, q |-> FALSE]
+              ELSE [e |-> [holder |-> req[Head(e.wq)].lid, depth |-> 1, hrid |-> Head(e.wq), wq |-> Tail(e.wq)],
+                    out |-> <<Fr(rid, SUCCED), Fr(Head(e.wq), SUCCED)>>, q |-> FALSE]
          ELSE one(UNLOCKERR)
     ELSE IF e.holder = 0
-         THEN [e |-> [e EXCEPT !.holder = r.lid, !.depth = 1], out |-> <<[rid |-> rid, res |-> SUCCED]>>, q |-> FALSE]
+         THEN [e |-> [e EXCEPT !.holder = r.lid, !.depth = 1, !.hrid = rid], out |-> <<Fr(rid, SUCCED)>>, q |-> FALSE]
          ELSE IF r.op = "lockc" THEN one(TIMEOUT)                \* LockDB.Lock's own fast path: flag, no wait, key full - whoever holds
          ELSE IF e.holder = r.lid
               THEN IF r.op = "lockr" /\ e.depth < 2
-                   THEN [e |-> [e EXCEPT !.depth = @ + 1], out |-> <<[rid |-> rid, res |-> SUCCED]>>, q |-> FALSE]
+                   THEN \* re-lock: UpdateLockedLock makes THIS request the hold's command (its id travels in the expiry notice)
+                        [e |-> [e EXCEPT !.depth = @ + 1, !.hrid = rid], out |-> <<Fr(rid, SUCCED)>>, q |-> FALSE]
                    ELSE one(LOCKED)
               ELSE IF r.op \in {"lockw", "lockcw"}
                    THEN [e |-> [e EXCEPT !.wq = Append(@, rid)], out |-> <<>>, q |-> TRUE]
@@ -126,27 +164,28 @@ Decide(e, rid) ==
 \* the guard of LockDB.CheckProbableLock on the request alone (the replica test follows)
 FastGuard(op) == IF FastPathOr THEN op \in {"lock0", "lockr", "lockc", "lockcw"} ELSE op = "lockc"
 
-\* routing of engine replies: to the client connection itself (decided where it was sent) or into the downstream
-\* queue of the upstream instance that carried the request; dropped when that instance is gone
+\* routing of engine frames: to the client connection itself (decided where it was sent) or into the downstream
+\* queue of the upstream instance that carried the request; dropped when that instance is gone.  A notice for a request
+\* decided on the node it was sent to reaches a binary / direct client; the plain TextServerProtocol drops it.
 Live(rid) == via[rid].g > 0 /\ up[via[rid].c] = "up" /\ gen[via[rid].c] = via[rid].g
 
 RouteRep(out, src) ==
-    [c \in Conns |-> rep[c] \o SelectSeq([i \in 1..Len(out) |-> [rid |-> out[i].rid, res |-> out[i].res, src |-> src]],
-                                       LAMBDA x : via[x.rid].g = 0 /\ req[x.rid].conn = c)]
+    [c \in Conns |-> rep[c] \o SelectSeq([i \in 1..Len(out) |-> RpOf(out[i], src)],
+                                       LAMBDA x : via[x.rid].g = 0 /\ req[x.rid].conn = c /\ ~(x.kind = "notice" /\ c \in TextConns))]
 RouteDown(out) ==
     [c \in NConns |-> downq[c] \o SelectSeq(out, LAMBDA x : Live(x.rid) /\ via[x.rid].c = c)]
 
 NewDec(out, rid, q) ==
     [x \in DOMAIN dec |->
-        IF \E i \in 1..Len(out) : out[i].rid = x
-        THEN out[CHOOSE i \in 1..Len(out) : out[i].rid = x].res
+        IF \E i \in 1..Len(out) : out[i].rid = x /\ ~out[i].nt
+        THEN out[CHOOSE i \in 1..Len(out) : out[i].rid = x /\ ~out[i].nt].res
         ELSE IF x = rid /\ q THEN "queued" ELSE dec[x]]
 
 -----------------------------------------------------------------------------
 Init ==
     /\ role \in {"follower"} \cup (IF AllowDemote THEN {"leader"} ELSE {})
     /\ known = TRUE
-    /\ eng = [n \in {"L", "N"} |-> [holder |-> 0, depth |-> 0, wq |-> <<>>]]
+    /\ eng = [n \in {"L", "N"} |-> [holder |-> 0, depth |-> 0, hrid |-> 0, wq |-> <<>>]]
     /\ req = <<>>
     /\ inb = [c \in Conns |-> <<>>]
     /\ wrapped = [c \in NConns |-> role = "follower"]
@@ -157,11 +196,17 @@ Init ==
     /\ downq = [c \in NConns |-> <<>>]
     /\ latest = [c \in NConns |-> 0]
     /\ twait = [c \in TextConns |-> 0]
+    /\ tblk = [c \in TextConns |-> 0]
+    /\ lw = [c \in TextConns |-> <<>>]
     /\ rep = [c \in Conns |-> <<>>]
     /\ dec = <<>>
     /\ via = <<>>
     /\ orphan = {}
     /\ fpbad = FALSE
+    /\ expired = {}
+    /\ noted = {}
+    /\ nlost = {}
+    /\ nx = 0
     /\ nf = 0
     /\ hist = <<>>
 
@@ -173,8 +218,8 @@ ClientSend(c, op, lid) ==
     /\ inb' = [inb EXCEPT ![c] = Append(@, NReq + 1)]
     /\ dec' = Append(dec, "none")
     /\ via' = Append(via, [c |-> c, g |-> 0])
-    /\ hist' = IF RecordHist THEN Append(hist, [op |-> "send", c |-> c, rop |-> op, lid |-> lid]) ELSE hist
-    /\ UNCHANGED <<role, known, eng, wrapped, first, up, gen, upq, downq, latest, twait, rep, orphan, fpbad, nf>>
+    /\ hist' = IF RecordHist THEN Append(hist, [op |-> "send", c |-> c, rop |-> op, lid |-> lid, n |-> NReq + 1]) ELSE hist
+    /\ UNCHANGED <<role, known, eng, wrapped, first, up, gen, upq, downq, latest, twait, tblk, lw, rep, orphan, fpbad, expired, noted, nlost, nx, nf>>
 
 \* a request decided by the engine of the node it was sent to (L for direct connections, N while N leads)
 DecideOwn(c, n) ==
@@ -189,19 +234,19 @@ DecideOwn(c, n) ==
 DirProcess(c) ==
     /\ c \in DirConns /\ inb[c] # <<>>
     /\ DecideOwn(c, "L")
-    /\ UNCHANGED <<role, known, req, wrapped, first, up, gen, upq, latest, twait, via, orphan, fpbad, nf, hist>>
+    /\ UNCHANGED <<role, known, req, wrapped, first, up, gen, upq, latest, twait, tblk, lw, via, orphan, fpbad, expired, noted, nlost, nx, nf, hist>>
 
-LocalReply(c, rid, res) == rep' = [rep EXCEPT ![c] = Append(@, [rid |-> rid, res |-> res, src |-> "local"])]
+LocalReply(c, rid, res) == rep' = [rep EXCEPT ![c] = Append(@, RpReply(rid, Fr(rid, res), "local"))]
 
 NodeProcess(c) ==
     /\ c \in NConns /\ inb[c] # <<>>
-    /\ c \in TextConns => twait[c] = 0
+    /\ c \in TextConns => tblk[c] = 0
     /\ LET rid == Head(inb[c]) IN
        IF role = "leader"
        THEN \* AGAIN: the inner protocol decides on N's own engine
             /\ DecideOwn(c, "N")
             /\ first' = [first EXCEPT ![c] = FALSE]
-            /\ UNCHANGED <<role, known, req, wrapped, up, gen, upq, latest, twait, via, orphan, fpbad, nf, hist>>
+            /\ UNCHANGED <<role, known, req, wrapped, up, gen, upq, latest, twait, tblk, lw, via, orphan, fpbad, expired, noted, nlost, nx, nf, hist>>
        ELSE
          /\ wrapped' = [wrapped EXCEPT ![c] = TRUE]
          /\ first' = [first EXCEPT ![c] = FALSE]
@@ -209,18 +254,18 @@ NodeProcess(c) ==
          /\ \/ \* deviation: first command of a text connection run by the inner handlers -> refused by N's own engine
                /\ FirstTextLocal /\ c \in TextConns /\ first[c] /\ wrapped[c]
                /\ LocalReply(c, rid, STATEERR)
-               /\ UNCHANGED <<up, gen, upq, latest, twait, via, downq, dec, eng, fpbad>>
+               /\ UNCHANGED <<up, gen, upq, latest, twait, tblk, lw, via, downq, dec, eng, fpbad>>
             \/ \* concurrent-check fast path answered from the replica
                /\ FastGuard(req[rid].op) /\ eng["N"].holder # 0
                /\ LocalReply(c, rid, TIMEOUT)
                /\ fpbad' = (fpbad \/ (eng["N"].holder = eng["L"].holder /\ eng["N"].depth = eng["L"].depth 
                                       /\ Decide(eng["L"], rid).out # <<>> /\ Decide(eng["L"], rid).out[1].res = SUCCED))
-               /\ UNCHANGED <<up, gen, upq, latest, twait, via, downq, dec, eng>>
+               /\ UNCHANGED <<up, gen, upq, latest, twait, tblk, lw, via, downq, dec, eng>>
             \/ \* no upstream and no reachable leader: refused
                /\ ~(FastGuard(req[rid].op) /\ eng["N"].holder # 0)
                /\ up[c] = "none" /\ ~known
                /\ LocalReply(c, rid, STATEERR)
-               /\ UNCHANGED <<up, gen, upq, latest, twait, via, downq, dec, eng, fpbad>>
+               /\ UNCHANGED <<up, gen, upq, latest, twait, tblk, lw, via, downq, dec, eng, fpbad>>
             \/ \* forwarded (the upstream is opened first when there is none)
                /\ ~(FastGuard(req[rid].op) /\ eng["N"].holder # 0)
                /\ up[c] = "up" \/ known
@@ -229,9 +274,19 @@ NodeProcess(c) ==
                /\ upq' = [upq EXCEPT ![c] = Append(@, rid)]
                /\ latest' = [latest EXCEPT ![c] = rid]
                /\ via' = [via EXCEPT ![rid] = [c |-> c, g |-> gen'[c]]]
-               /\ twait' = IF c \in TextConns THEN [twait EXCEPT ![c] = rid] ELSE twait
-               /\ UNCHANGED <<rep, downq, dec, eng, fpbad>>
-         /\ UNCHANGED <<role, known, req, orphan, nf, hist>>
+               /\ IF c \in TextConns
+                  THEN \* the handler: lockRequestId := this request; write upstream; <-lockWaiter.  A frame that is already
+                       \* buffered in lockWaiter (only possible without the reset) is taken at once as the answer
+                       /\ twait' = [twait EXCEPT ![c] = rid]
+                       /\ IF lw[c] = <<>>
+                          THEN /\ tblk' = [tblk EXCEPT ![c] = rid]
+                               /\ UNCHANGED <<lw, rep>>
+                          ELSE /\ rep' = [rep EXCEPT ![c] = Append(@, RpReply(rid, Head(lw[c]), "relay"))]
+                               /\ lw' = [lw EXCEPT ![c] = Tail(@)]
+                               /\ tblk' = tblk
+                  ELSE UNCHANGED <<twait, tblk, lw, rep>>
+               /\ UNCHANGED <<downq, dec, eng, fpbad>>
+         /\ UNCHANGED <<role, known, req, orphan, expired, noted, nlost, nx, nf, hist>>
 
 \* the leader reads one forwarded request and decides it
 LeaderRecv(c) ==
@@ -243,22 +298,30 @@ LeaderRecv(c) ==
           /\ downq' = RouteDown(d.out)
           /\ dec' = NewDec(d.out, rid, d.q)
           /\ upq' = [upq EXCEPT ![c] = Tail(@)]
-    /\ UNCHANGED <<role, known, req, inb, wrapped, first, up, gen, latest, twait, via, orphan, fpbad, nf, hist>>
+    /\ UNCHANGED <<role, known, req, inb, wrapped, first, up, gen, latest, twait, tblk, lw, via, orphan, fpbad, expired, noted, nlost, nx, nf, hist>>
 
-\* one leader reply handed to the client connection
+\* one leader frame taken off the upstream link by TransparencyBinaryClientProtocol.Process
+\*   binary client connection (processBinaryProcotol): every frame is written to the client as it is
+\*   text client connection (processTextProcotol): a frame whose id equals lockRequestId goes to lockWaiter and lockRequestId
+\*   is zeroed (ResetAfterRelay); any other frame - the expiry notice of an answered request - is dropped
 Relay(c) ==
     /\ c \in NConns /\ downq[c] # <<>>
     /\ LET r == Head(downq[c]) IN
        /\ downq' = [downq EXCEPT ![c] = Tail(@)]
        /\ latest' = [latest EXCEPT ![c] = IF @ = r.rid THEN 0 ELSE @]
        /\ IF c \in BinConns
-          THEN /\ rep' = [rep EXCEPT ![c] = Append(@, [rid |-> r.rid, res |-> r.res, src |-> "relay"])]
-               /\ twait' = twait
+          THEN /\ rep' = [rep EXCEPT ![c] = Append(@, RpOf(r, "relay"))]
+               /\ UNCHANGED <<twait, tblk, lw>>
           ELSE IF twait[c] = r.rid
-               THEN /\ rep' = [rep EXCEPT ![c] = Append(@, [rid |-> r.rid, res |-> r.res, src |-> "relay"])]
-                    /\ twait' = [twait EXCEPT ![c] = 0]
-               ELSE UNCHANGED <<rep, twait>>
-    /\ UNCHANGED <<role, known, eng, req, inb, wrapped, first, up, gen, upq, dec, via, orphan, fpbad, nf, hist>>
+               THEN /\ twait' = IF ResetAfterRelay THEN [twait EXCEPT ![c] = 0] ELSE twait
+                    /\ IF tblk[c] # 0
+                       THEN /\ rep' = [rep EXCEPT ![c] = Append(@, RpReply(tblk[c], r, "relay"))]
+                            /\ tblk' = [tblk EXCEPT ![c] = 0]
+                            /\ lw' = lw
+                       ELSE /\ lw' = [lw EXCEPT ![c] = Append(@, r)]
+                            /\ UNCHANGED <<rep, tblk>>
+               ELSE UNCHANGED <<rep, twait, tblk, lw>>
+    /\ UNCHANGED <<role, known, eng, req, inb, wrapped, first, up, gen, upq, dec, via, orphan, fpbad, expired, noted, nlost, nx, nf, hist>>
 
 \* effect of the death of the upstream connections in set B
 InFlight(c) == {rid \in Rids : via[rid].c = c /\ via[rid].g = gen[c] /\ via[rid].g > 0 /\ ~Answered(rid)}
@@ -268,21 +331,24 @@ Rolled(c) == IF RollbackLatestOnly
 SeqOfSet(S) == LET RECURSIVE F(_) F(T) == IF T = {} THEN <<>> ELSE LET x == CHOOSE y \in T : \A z \in T : y <= z IN <<x>> \o F(T \ {x}) IN F(S)
 BreakSet(B) ==
     /\ rep' = [c \in Conns |-> IF c \in B
-                               THEN rep[c] \o [i \in 1..Cardinality(Rolled(c)) |-> [rid |-> SeqOfSet(Rolled(c))[i], res |-> ERROR, src |-> "local"]]
+                               THEN rep[c] \o [i \in 1..Cardinality(Rolled(c)) |-> RpReply(SeqOfSet(Rolled(c))[i], Fr(SeqOfSet(Rolled(c))[i], ERROR), "local")]
                                ELSE rep[c]]
     /\ orphan' = orphan \cup UNION {InFlight(c) \ Rolled(c) : c \in B}
+    /\ nlost' = nlost \cup UNION {{downq[c][i].rid : i \in {j \in 1..Len(downq[c]) : downq[c][j].nt}} : c \in B}
     /\ up' = [c \in NConns |-> IF c \in B THEN "none" ELSE up[c]]
     /\ upq' = [c \in NConns |-> IF c \in B THEN <<>> ELSE upq[c]]
     /\ downq' = [c \in NConns |-> IF c \in B THEN <<>> ELSE downq[c]]
     /\ latest' = [c \in NConns |-> IF c \in B THEN 0 ELSE latest[c]]
     /\ twait' = [c \in TextConns |-> IF c \in B THEN 0 ELSE twait[c]]
+    /\ tblk' = [c \in TextConns |-> IF c \in B THEN 0 ELSE tblk[c]]
+    /\ lw' = lw
 
 Break(c) ==
     /\ c \in NConns /\ up[c] = "up" /\ nf < MaxFaults
     /\ BreakSet({c})
     /\ nf' = nf + 1
     /\ hist' = H("break", c)
-    /\ UNCHANGED <<role, known, eng, req, inb, wrapped, first, gen, dec, via, fpbad>>
+    /\ UNCHANGED <<role, known, eng, req, inb, wrapped, first, gen, dec, via, fpbad, expired, noted, nx>>
 
 LeaderGone ==
     /\ known /\ nf < MaxFaults
@@ -290,45 +356,68 @@ LeaderGone ==
     /\ BreakSet({c \in NConns : up[c] = "up"})
     /\ nf' = nf + 1
     /\ hist' = H("gone", "")
-    /\ UNCHANGED <<role, eng, req, inb, wrapped, first, gen, dec, via, fpbad>>
+    /\ UNCHANGED <<role, eng, req, inb, wrapped, first, gen, dec, via, fpbad, expired, noted, nx>>
 
 LeaderBack ==
     /\ ~known
     /\ known' = TRUE
     /\ hist' = H("back", "")
-    /\ UNCHANGED <<role, eng, req, inb, wrapped, first, up, gen, upq, downq, latest, twait, rep, dec, via, orphan, fpbad, nf>>
+    /\ UNCHANGED <<role, eng, req, inb, wrapped, first, up, gen, upq, downq, latest, twait, tblk, lw, rep, dec, via, orphan, fpbad, expired, noted, nlost, nx, nf>>
 
 Promote ==
     /\ role = "follower" /\ nf < MaxFaults
     /\ role' = "leader"
     /\ nf' = nf + 1
     /\ hist' = H("promote", "")
-    /\ UNCHANGED <<known, eng, req, inb, wrapped, first, up, gen, upq, downq, latest, twait, rep, dec, via, orphan, fpbad>>
+    /\ UNCHANGED <<known, eng, req, inb, wrapped, first, up, gen, upq, downq, latest, twait, tblk, lw, rep, dec, via, orphan, fpbad, expired, noted, nlost, nx>>
 
 Demote ==
     /\ AllowDemote /\ role = "leader" /\ nf < MaxFaults
     /\ role' = "follower"
     /\ nf' = nf + 1
     /\ hist' = H("demote", "")
-    /\ UNCHANGED <<known, eng, req, inb, wrapped, first, up, gen, upq, downq, latest, twait, rep, dec, via, orphan, fpbad>>
+    /\ UNCHANGED <<known, eng, req, inb, wrapped, first, up, gen, upq, downq, latest, twait, tblk, lw, rep, dec, via, orphan, fpbad, expired, noted, nlost, nx>>
 
-\* N's replica catches up with the leader's stream
+\* N's replica catches up with the leader's stream (a replicated hold keeps no client command: hrid = 0)
 Replicate ==
     /\ role = "follower" /\ known
     /\ <<eng["N"].holder, eng["N"].depth>> # <<eng["L"].holder, eng["L"].depth>>
-    /\ eng' = [eng EXCEPT !["N"].holder = eng["L"].holder, !["N"].depth = eng["L"].depth]
-    /\ UNCHANGED <<role, known, req, inb, wrapped, first, up, gen, upq, downq, latest, twait, rep, dec, via, orphan, fpbad, nf, hist>>
+    /\ eng' = [eng EXCEPT !["N"].holder = eng["L"].holder, !["N"].depth = eng["L"].depth, !["N"].hrid = 0]
+    /\ UNCHANGED <<role, known, req, inb, wrapped, first, up, gen, upq, downq, latest, twait, tblk, lw, rep, dec, via, orphan, fpbad, expired, noted, nlost, nx, nf, hist>>
 
 \* a queued request times out at the engine that queued it
 TimeoutWaiter(n, i) ==
     /\ i \in 1..Len(eng[n].wq)
     /\ LET rid == eng[n].wq[i]
-           out == <<[rid |-> rid, res |-> TIMEOUT]>>
+           out == <<Fr(rid, TIMEOUT)>>
        IN /\ eng' = [eng EXCEPT ![n].wq = SubSeq(@, 1, i - 1) \o SubSeq(@, i + 1, Len(@))]
           /\ rep' = RouteRep(out, "own")
           /\ downq' = RouteDown(out)
           /\ dec' = NewDec(out, rid, FALSE)
-    /\ UNCHANGED <<role, known, req, inb, wrapped, first, up, gen, upq, latest, twait, via, orphan, fpbad, nf, hist>>
+    /\ UNCHANGED <<role, known, req, inb, wrapped, first, up, gen, upq, latest, twait, tblk, lw, via, orphan, fpbad, expired, noted, nlost, nx, nf, hist>>
+
+\* the hold of the key expires on a DECIDING engine (LockDB.doExpried; a follower never ends a replicated hold on its own clock:
+\* the refuse half of C10).  The engine pushes an unsolicited EXPRIED frame with the id of the request whose command the hold keeps
+\* down the connection of that request and grants the head waiter.
+LeaderExpire(n) ==
+    /\ nx < MaxExpire
+    /\ n = "N" => role = "leader"
+    /\ eng[n].holder # 0
+    /\ LET hr  == eng[n].hrid
+           e   == eng[n]
+           nte == IF hr # 0 THEN <<[rid |-> hr, res |-> EXPRIED, nt |-> TRUE]>> ELSE <<>>
+           wk  == IF e.wq # <<>> THEN <<Fr(Head(e.wq), SUCCED)>> ELSE <<>>
+           out == nte \o wk
+       IN /\ eng' = [eng EXCEPT ![n] = IF e.wq = <<>> THEN [holder |-> 0, depth |-> 0, hrid |-> 0, wq |-> <<>>]
+                                        ELSE [holder |-> req[Head(e.wq)].lid, depth |-> 1, hrid |-> Head(e.wq), wq |-> Tail(e.wq)]]
+          /\ rep' = RouteRep(out, "own")
+          /\ downq' = RouteDown(out)
+          /\ dec' = NewDec(out, 0, FALSE)
+          /\ expired' = IF hr # 0 THEN expired \cup {hr} ELSE expired
+          /\ noted' = IF hr # 0 /\ (Live(hr) \/ (via[hr].g = 0 /\ req[hr].conn \notin TextConns)) THEN noted \cup {hr} ELSE noted
+          /\ hist' = IF RecordHist THEN Append(hist, [op |-> "expire", c |-> IF hr # 0 THEN req[hr].conn ELSE "", rop |-> n, lid |-> e.holder, n |-> hr]) ELSE hist
+    /\ nx' = nx + 1
+    /\ UNCHANGED <<role, known, req, inb, wrapped, first, up, gen, upq, latest, twait, tblk, lw, via, orphan, fpbad, nlost, nf>>
 
 Next ==
     \/ \E c \in Conns, op \in Ops, lid \in Lids : ClientSend(c, op, lid)
@@ -336,6 +425,7 @@ Next ==
     \/ \E c \in NConns : NodeProcess(c) \/ LeaderRecv(c) \/ Relay(c) \/ Break(c)
     \/ LeaderGone \/ LeaderBack \/ Promote \/ Demote \/ Replicate
     \/ \E n \in {"L", "N"} : \E i \in 1..2 : TimeoutWaiter(n, i)
+    \/ \E n \in {"L", "N"} : LeaderExpire(n)
 
 Spec == Init /\ [][Next]_vars
 
@@ -345,15 +435,35 @@ Spec == Init /\ [][Next]_vars
 AllReplies == UNION {{[c |-> c, i |-> i] : i \in 1..Len(rep[c])} : c \in Conns}
 R(x) == rep[x.c][x.i]
 
-\* every reply carries the id of a request of THIS connection, at most one reply per request
+\* everything a client receives carries the id of a request of THIS connection; at most one frame is taken as the answer
+\* of a request and at most one further frame (the expiry notice) follows it
 OneReplyRightConn ==
     \A x \in AllReplies : /\ R(x).rid \in Rids /\ req[R(x).rid].conn = x.c
-                          /\ \A y \in AllReplies : R(y).rid = R(x).rid => y = x
+                          /\ \A y \in AllReplies : (R(y).rid = R(x).rid /\ R(y).kind = R(x).kind) => y = x
 
 \* a relayed reply is the deciding engine's reply; nothing the node makes up is a success
-RelayedIsLeaderReply == \A x \in AllReplies : R(x).src \in {"relay", "own"} => dec[R(x).rid] = R(x).res
+RelayedIsLeaderReply == \A x \in AllReplies : (R(x).src \in {"relay", "own"} /\ R(x).kind = "reply") => dec[R(x).rid] = R(x).res
 NoFabricatedSuccess  == \A x \in AllReplies : /\ R(x).res = SUCCED => dec[R(x).rid] = SUCCED
                                               /\ R(x).src = "local" => R(x).res \in {STATEERR, ERROR, TIMEOUT}
+\* what is taken as THE answer of a request is the deciding engine's reply frame for THAT VERY request - never a frame of
+\* another request, never an unsolicited notice (refuted when lockRequestId is not reset: ResetAfterRelay = FALSE)
+ReplyOfThatVeryRequest == \A x \in AllReplies : (R(x).src \in {"relay", "own"} /\ R(x).kind = "reply") => (R(x).of = R(x).rid /\ ~R(x).ofn)
+\* an expiry notice reaches a client only as a notice: with the id of a request of this client whose hold did expire, after
+\* the SUCCED answer of that request, result EXPRIED, and never on a text connection
+NoticeIsOfExpiredGrant ==
+    \A x \in AllReplies : R(x).kind = "notice" =>
+        /\ R(x).rid \in expired /\ R(x).res = EXPRIED /\ R(x).ofn /\ x.c \notin TextConns
+        /\ \E j \in 1..(x.i - 1) : rep[x.c][j].rid = R(x).rid /\ rep[x.c][j].kind = "reply" /\ rep[x.c][j].res = SUCCED
+\* a notice that was put on an intact route is relayed to a binary client (not dropped, not re-tagged) and never shows up on a
+\* text connection in any form
+NoticesRelayedToBinary ==
+    (\A c \in NConns : downq[c] = <<>>) =>
+        \A rid \in noted \ nlost :
+            IF req[rid].conn \in TextConns
+            THEN \A i \in 1..Len(rep[req[rid].conn]) : ~(rep[req[rid].conn][i].of = rid /\ rep[req[rid].conn][i].ofn)
+            ELSE \E i \in 1..Len(rep[req[rid].conn]) : rep[req[rid].conn][i].rid = rid /\ rep[req[rid].conn][i].kind = "notice"
+\* lockWaiter never holds a frame while the handler is idle (the code as it is)
+LockWaiterEmpty == ResetAfterRelay => \A c \in TextConns : lw[c] = <<>>
 \* a request refused with STATE_ERROR (or by the fast path) never reached any engine
 RefusedNotExecuted == \A x \in AllReplies : (R(x).src = "local" /\ R(x).res # ERROR) => dec[R(x).rid] = "none"
 
@@ -375,7 +485,8 @@ NonLeaderEngineUntouched ==
 \* the leader's engine is changed only by a request that reached it
 TypeOK == /\ role \in {"follower", "leader"} /\ known \in BOOLEAN
           /\ \A c \in NConns : up[c] \in {"none", "up"} /\ latest[c] \in 0..MaxReq
-          /\ \A c \in TextConns : twait[c] \in 0..MaxReq /\ Len(upq[c]) + Len(downq[c]) <= 1
+          /\ \A c \in TextConns : twait[c] \in 0..MaxReq /\ tblk[c] \in 0..MaxReq /\ Len(upq[c]) <= 1 /\ Len(lw[c]) <= 4
+          /\ nx \in 0..MaxExpire /\ expired \subseteq Rids /\ noted \subseteq expired /\ nlost \subseteq noted
 
 \* the follower's fast path never refuses what the leader, in the same state, would grant (the two mirror paths agree);
 \* refuted when the guard is written with OR (FastPathOr = TRUE)
